@@ -149,10 +149,16 @@ fn ids(c: &Sx) -> Sx {
         let t = c[1].as_usize()?;
         let k = c[2].as_usize()?;
         let via = c[3].as_z()?;
-        if t > 256 || k > 10_000_000 || !(0..=3).contains(&via) { return None; }
-        let barrier = Arc::new(Barrier::new(t.max(1)));
+        if t > 4096 || k > 10_000_000 || !(0..=3).contains(&via) { return None; }
+        // more than 64 threads run in waves of 64 (each wave starts together); thread numbers keep counting up across waves
+        let mut joined: Vec<Vec<usize>> = Vec::new();
+        let mut left = t;
+        while left > 0 {
+        let wave = left.min(64);
+        left -= wave;
+        let barrier = Arc::new(Barrier::new(wave));
         let mut hs = Vec::new();
-        for _ in 0..t {
+        for _ in 0..wave {
             let b = barrier.clone();
             hs.push(thread::spawn(move || -> Vec<usize> {
                 let mut out = Vec::with_capacity(k);
@@ -210,10 +216,11 @@ fn ids(c: &Sx) -> Sx {
                 out
             }));
         }
+        for h in hs { joined.push(h.join().ok()?); }
+        }
         let mut all: Vec<usize> = Vec::with_capacity(t * k);
         let mut increasing = true;
-        for h in hs {
-            let v = h.join().ok()?;
+        for v in joined {
             if v.windows(2).any(|w| w[0] >= w[1]) { increasing = false; }
             all.extend(v);
         }
